@@ -82,10 +82,29 @@ func (m *impl) Exec(op hx.Zs) []hx.Zs {
 	}
 	obs := m.w.Exec(op)
 	lastFam = m.fam
+	if len(op) > 3 && op[0] == 1 && len(obs) > 0 && len(obs[0]) == 2 && obs[0][0] == 10 {
+		kind := "local"
+		if op[1] != 0 {
+			kind = "remote-write"
+		} else if op[3] != 0 {
+			kind = "notify-or-reply"
+		}
+		switch obs[0][1] {
+		case 0:
+			results["applied-or-dry-run:"+kind]++
+		case 1:
+			results["rejected:"+kind]++
+			rejected++
+		default:
+			results[fmt.Sprintf("code-%d:%s", obs[0][1], kind)]++
+		}
+	}
 	return obs
 }
 
 var lastFam int
+var results = map[string]int{}
+var rejected int
 
 // the APIs of families 2 (wire) and 3 do not hand the resulting data back: drop the model's Ret there
 func canon(op hx.Zs, obs []hx.Zs) []hx.Zs {
@@ -111,6 +130,15 @@ func gen(r *hx.Rng, tier string, i int) []hx.Zs {
 	}
 	fam := r.Pick(4, 2, 3, 3)
 	cfg := upd.GenCfg{Family: fam, IllPct: 6, NoPersist: true}
+	if fam != 1 {
+		// rejected updates go through FunctionData only (a bare data object has nothing that keeps a
+		// rejected update from its list); remote writes exist for FunctionData itself and FeatureLocal
+		cfg.RejectPct = 10
+		if fam == 0 || fam == 3 {
+			cfg.RemotePct = 15
+			cfg.FlagFields = true
+		}
+	}
 	h := ti.GenHistory(r, cfg)
 	perType[string(ti.Function)]++
 	perFamily[fmt.Sprint(fam)]++
@@ -135,7 +163,7 @@ func main() {
 			}
 			sort.Strings(names)
 			return map[string]any{"registered_list_types": len(types), "types_exercised": len(perType), "histories_per_type": perType,
-				"histories_per_family": perFamily}
+				"histories_per_family": perFamily, "update_results": results, "rejected_updates": rejected}
 		},
 	})
 }
